@@ -28,7 +28,7 @@ try:
         out.write("%s %s %s\n" % (commit, prop, (line[-1] if line else "?")[:220]))
         out.flush()
     for d in sorted(os.listdir(os.path.join(here, "reverts", "manual"))):
-        dd = os.path.join(here, "seeded", "reverts-manual", d)
+        dd = os.path.join(here, "reverts", "manual", d)
         if os.path.isdir(dd):
             r = subprocess.run(["python3", os.path.join(here, "tools", "mutant.py"), "check", dd], capture_output=True, text=True)
             line = [l for l in r.stdout.splitlines() if re.search(r"CAUGHT|MISSED|INCONCLUSIVE", l)]
